@@ -2,6 +2,7 @@ import Gomjml.Core.LayoutSpec
 import Gomjml.Core.LayoutCount
 import Gomjml.Core.LayoutStd
 import Gomjml.Core.CharData
+import Gomjml.Core.LayoutLeaves
 /-! # C04 — content fidelity: author content appears once, in order, as authored (property theorems only)
 
 Layout part, on the skeleton model (`t` = one content slot; the combined machine rejects `t` inside an Outlook
@@ -26,6 +27,25 @@ theorem C04_visible_full (bs : List Block) : Visible ((render bs).map Tok.toG) :
 example : Visible ((render [.section ⟨false, false, false, false, false, false, []⟩, .raw false,
                             .section ⟨false, false, false, false, false, false, []⟩]).map Tok.toG) := by
   unfold Visible; decide
+
+/-! ### with the content components filled in -/
+open Gomjml.LayoutLeaves Gomjml.Leaves in
+/-- **never only inside an Outlook-only comment, with real components**: in every document no author content — button label,
+    table cell, social element text, navbar link, accordion title / text — sits inside an Outlook conditional (the only text the
+    components write there is generated: the divider's `&nbsp;`) -/
+theorem C04_visible_components (d : Doc) : Visible d.render := (doc_spec d).2.2
+
+open Gomjml.LayoutLeaves Gomjml.Leaves in
+/-- **exactly once, with real components**: a document that names a component for every slot renders exactly as many author
+    content tokens as its components have content slots (one per table cell, per social element with icon and text, per
+    navbar link / accordion title / accordion text with content, …) -/
+theorem C04_once_components (d : Doc) (h : d.Complete) : cntT d.render = (d.fills.map LeafM.slots).sum := doc_count d h
+
+open Gomjml.Leaves in
+/-- what the Model says about the two places where a component drops author text by design: a social element without icon
+    (unknown network, no src) writes nothing, and of several titles / texts in one accordion element only the last is written —
+    both are visible in `SocEl.slots` / the `AccEl` structure, and both are what the code does (tied by correspondence) -/
+example : (LeafM.social false [⟨false, true, true⟩]).slots = 0 ∧ cntT (LeafM.social false [⟨false, true, true⟩]).toks = 0 := by decide
 
 /-! ### as authored: character data on the way out (`parser.EscapeCharData`, used by every slot that re-serialises decoded text) -/
 
